@@ -148,6 +148,50 @@ func checkGenerate(c *Ctx, m *gensignModel, h *types.Named, gen *ssa.Function) {
 	kid, req := kids[0], reqs[0]
 	kf := w.FieldStoresDeep(gen, kid)
 	rf := w.FieldStoresDeep(gen, req)
+	// the KeyID obtained from the package's exported constructor (keyid.New()): the constructor's result denotes the
+	// literal it returns, and the fields assigned through that result complete the ones the constructor sets
+	var kidCall ssa.Value
+	if kid.Parent() != gen && !w.transparent(kid.Parent()) && w.successValue(kid.Parent(), 0) == ssa.Value(kid) {
+		n := 0
+		for _, tf := range w.Tree(gen) {
+			if tf == kid.Parent() {
+				continue
+			}
+			for _, call := range callsIn(tf) {
+				if cv, ok := call.(*ssa.Call); ok && cv.Call.StaticCallee() == kid.Parent() {
+					kidCall = cv
+					n++
+				}
+			}
+		}
+		if n != 1 {
+			kidCall = nil
+		}
+	}
+	isKid := func(v ssa.Value) bool {
+		cv := w.canon(gen, v)
+		return cv == ssa.Value(kid) || (kidCall != nil && cv == kidCall)
+	}
+	if kidCall != nil {
+		for _, tf := range w.Tree(gen) {
+			for _, b := range tf.Blocks {
+				for _, ins := range b.Instrs {
+					fa, ok := ins.(*ssa.FieldAddr)
+					if !ok || w.canon(gen, fa.X) != kidCall {
+						continue
+					}
+					name := fieldName(fa.X.Type(), fa.Field)
+					if fr := fa.Referrers(); fr != nil {
+						for _, u := range *fr {
+							if st, ok := u.(*ssa.Store); ok && st.Addr == ssa.Value(fa) {
+								kf[name] = append(kf[name], st.Val)
+							}
+						}
+					}
+				}
+			}
+		}
+	}
 
 	// ---- R2: KeyID ----
 	wantK := map[string]string{
@@ -188,7 +232,7 @@ func checkGenerate(c *Ctx, m *gensignModel, h *types.Named, gen *ssa.Function) {
 	okP := false
 	if vs := rf["Principals"]; len(vs) == 1 {
 		ex := w.Expr(vs[0])
-		if ex == "alloc<"+RepoMod+"/keyid.KeyID>.Principals" {
+		if ex == "alloc<"+RepoMod+"/keyid.KeyID>.Principals" || (kidCall != nil && ex == w.Expr(kidCall)+".Principals") {
 			okP = prinOK
 		} else if e, ok := oneElemSliceOf(w, vs[0]); ok && e == "p1.LogName" {
 			okP = true
@@ -386,7 +430,7 @@ func checkGenerate(c *Ctx, m *gensignModel, h *types.Named, gen *ssa.Function) {
 	if vs := rf["KeyId"]; len(vs) >= 1 {
 		for _, v := range vs {
 			if ex, ok := v.(*ssa.Extract); ok && ex.Index == 0 {
-				if mc, ok := ex.Tuple.(*ssa.Call); ok && strings.HasSuffix(calleeName(mc), "keyid.KeyID).Marshal") && w.canon(gen, mc.Call.Args[0]) == ssa.Value(kid) {
+				if mc, ok := ex.Tuple.(*ssa.Call); ok && strings.HasSuffix(calleeName(mc), "keyid.KeyID).Marshal") && isKid(mc.Call.Args[0]) {
 					okId = w.ErrEdgeEnds(mc.Parent(), extractOf(mc, 1)) && w.failurePropagates(gen, mc.Parent())
 				}
 			}
@@ -536,6 +580,25 @@ func checkKeyGenerators(c *Ctx) {
 							pt := fn.Params[pi].Type()
 							if _, isBasic := pt.Underlying().(*types.Basic); isBasic || strings.HasSuffix(pt.String(), "crypto/elliptic.Curve") {
 								bad = false
+							}
+						}
+					}
+					if bad && fn != gkp && strings.HasPrefix(o, "p") && !strings.Contains(o, ".") {
+						// a parameter of a helper on the generator's tree (a generic "pair the key with its public half"):
+						// what the helper is given is judged at its call sites, which are on the same tree
+						if pi := atoi(o[1:]); pi < len(fn.Params) {
+							sites := w.sitesIn(gkp, fn)
+							if (fn.Synthetic == "" || strings.HasPrefix(fn.Synthetic, "instantiation wrapper")) && len(sites) > 0 && !w.dynCallable(fn) {
+								bad = false
+							}
+							// an instance of a generic helper: its sites are those of the instantiation wrappers
+							if bad && fn.Synthetic == "" && fn.TypeParams().Len() > 0 {
+								bad = false
+								for _, g := range w.RepoFuncs() {
+									if g.Origin() == fn && len(w.sitesIn(gkp, g)) == 0 {
+										bad = true
+									}
+								}
 							}
 						}
 					}
